@@ -1,0 +1,12 @@
+//go:build verif
+// +build verif
+
+package gobeansdb
+
+import (
+	mc "github.com/douban/gobeansdb/memcache"
+	"github.com/douban/gobeansdb/store"
+)
+
+// VerifNewStorage wraps an HStore the way Main does (test-only, -tags verif).
+func VerifNewStorage(h *store.HStore) mc.Storage { return &Storage{hstore: h} }
